@@ -38,7 +38,9 @@ def _catalogue(prop: str) -> List[Tuple[str, str, str]]:
             except Exception:
                 continue
             if meta.get("breaks_property") == prop and not meta.get("not_detected_by_design"):
-                out.append((n, "MF", p))
+                # a change that rewrites the checked construct beyond the fragment the rule understands must at least end
+                # the check as ANALYSIS-ERROR (exit 2, fail closed); such changes are marked in their meta.json
+                out.append((n, "MF2" if meta.get("accept_analysis_error") else "MF", p))
     if os.path.isdir(REFACTORS):
         for n in sorted(os.listdir(REFACTORS)):
             p = os.path.join(REFACTORS, n, "patch.diff")
@@ -68,10 +70,10 @@ def _run_variant(args) -> Tuple[str, str, str, str]:
         return name, kind, "stale", "patch no longer applies to the current tree"
     code, findings, ctx = report.run(prop, "thorough", quiet=True, write=False, sources=src)
     rules = sorted({f.rule for f in findings})
-    if kind == "MF":
-        if code == 1:
-            return name, kind, "ok", ",".join(rules)
-        return name, kind, "MISSED", "exit %d rules %s %s" % (code, rules, (getattr(ctx, "analysis_error", "") or "")[:160])
+    if kind in ("MF", "MF2"):
+        if code == 1 or (kind == "MF2" and code == 2):
+            return name, "MF", "ok", ",".join(rules) if code == 1 else "ANALYSIS-ERROR (fail closed)"
+        return name, "MF", "MISSED", "exit %d rules %s %s" % (code, rules, (getattr(ctx, "analysis_error", "") or "")[:160])
     if code == 0:
         return name, kind, "ok", ""
     detail = findings[0].message[:200] if findings else (getattr(ctx, "analysis_error", "") or "")[:200]
